@@ -165,8 +165,8 @@ def run(ctx):
     ctx.trusted += ["tools/translate/gen_src.py index_functions (ast -> Gallina over a universal Python value type, fail-closed)",
                     "coq/Ndx/Slice1D.v onnx_bounds/onnx_slice as the semantics of onnxruntime's Slice on one axis (validated: exhaustive 1-D correspondence on every run)",
                     "coq/Ndx/GetItem.v t_select/t_drop/t_unsqueeze as the semantics of ONNX Slice/Gather/Unsqueeze (validated by the in-Coq correspondence)"]
-    ctx.not_discharged += ["n-D statement `ndx_getitem_user = np_getitem` for all tuples: tested in Coq on every generated case (model_is_numpy_on_cases), not yet proved in general",
-                           "boolean masks and integer index arrays: correspondence with NumPy only"]
+    ctx.not_discharged += ["boolean masks and integer index arrays: correspondence with NumPy only (the n-D theorem covers tuples of ints, in-bounds slices, None and one Ellipsis)",
+                           "NumPy's error behaviour (out-of-range integer, too many indices): correspondence only; the theorem is about the tuples NumPy accepts"]
     ctx.static_build()
     try:
         (ctx.work / "GenIndex.v").write_text(gen_src.index_functions())
@@ -185,7 +185,7 @@ def run(ctx):
     ctx.sample({"impl": cases[5]["impl"], "inputs": {k: v["shape"] for k, v in cases[5]["inputs"].items()}, "dtype": cases[5]["meta"]["dtype"]})
     f = ctx.work / "C08_static.v"
     f.write_text((core.COQ / "Props" / "C08.v").read_text())
-    ctx.compile("Props/C08.v: slice_1d for every extent < 2^62 and every admissible slice; the guard is needed", f, kind="theorem")
+    ctx.compile("Props/C08.v: slice_1d for every extent < 2^62 and every admissible slice (guard needed); C08_getitem_nd: for every tensor, rank and basic index tuple the whole lowering (normalise, Slice pass, reversed Gathers with range checks, Unsqueeze) equals NumPy's left-to-right semantics; selected positions always in range", f, kind="theorem")
     ctx.coverage.update({
         "rule": "in-Coq correspondence: ALL 1-D cases for extents 0-4 (every in-bounds slice with step in {None,+-1,+-2,+-3}, every in-range int) + random index tuples over {int, slice, Ellipsis, None} for ranks 0-3, extents 0-4, 12% malformed (too few/many entries, unsupported type, two ellipses, out-of-range int); NumPy sweep: 8 dtypes incl. nullable/string, masks of rank <= ndim, integer index arrays, eager and traced with symbolic dims. Distinct by (index expression, shape, dtype).",
         "exhaustive": False})
